@@ -1228,7 +1228,8 @@ impl<'this> InternalOptimisingLineFormatter<'this, '_> {
         {
             // Multiline tokens necessarily have a break in them, so the line
             // length must be calculated.
-            if let Some(last_line) = token_content.lines().skip(1).last() {
+            // (the lexer ends a line at a lone CR as well as at LF and CRLF)
+            if let Some((_, last_line)) = token_content.rsplit_once(['\n', '\r']) {
                 return last_line.len() as u32;
             }
         }
